@@ -11,6 +11,9 @@ CHECKS={
  "C05":("model_checking",E1,"bounded-exhaustive exploration of reconfiguration histories against a reference stack machine",
         "All words up to depth 4 (quick) / 5 (thorough) over the five LoggerHandle reconfiguration operations with 5 well-formed specifications (two differing only in the text filter) and 3 malformed texts run on a real Logger; after every operation result kind, enabled-grid, delivered records and log::max_level() are compared with a (active, stack) reference model, and the stack is drained at the end.",
         "One handle; probe grid 5 levels x 6 targets x 2 messages.","4 C05"),
+ "C12":("model_checking",E2,"exhaustive interleaving exploration (controlled scheduler over real threads), no preemption bound",
+        "2 (all pairs) and 3 (quick: selected, thorough: all triples) threads with LoggerHandle clones each issue one of set_new_spec / parse_new_spec / push_temp_spec / push+pop / set_new_spec(D); every interleaving of their scheduling points (spec lock acquisition, log::set_max_level, thread start/end) is executed on the real code via token passing through the guarded hooks; afterwards the enabled-grid must equal one submitted specification as a whole and log::max_level() must admit everything it enables. Each reported schedule is replayed twice for determinism.",
+        "Sequential consistency at hook granularity; the spec RwLock sections and log::set_max_level are the only shared accesses of these operations; logging threads are not mixed in.","4 C12"),
  "C17":("exploration",E3,"bounded-exhaustive enumeration of specification texts against a reference parser; exhaustive round trips",
         "Every specification with <= 3 module names (7-name alphabet incl. level words) x 6 filters x optional default is round-tripped through Display, TOML and (<= 1 name) a real specfile start/restart; every string of <= 6 (quick) / 7 (thorough) tokens over a 14-token alphabet plus multi-byte characters swept over every byte offset in every kind of part is parsed and compared with a reference parser: no panic, Err iff malformed, salvaged specification == well-formed parts.",
         "Reference parser written from the documented BNF plus the tolerances the unit tests pin (trimmed parts, empty parts skipped, `name=` means trace); empty module names and duplicates only checked for no-panic.","4 C17"),
